@@ -504,12 +504,18 @@ HasOptList(T) == LET RECURSIVE has(_)
                                  [] U.k \in {"var", "reg"} -> has(U.x)
                                  [] OTHER -> FALSE
                  IN has(T)
+HasAnyOpt(T) == LET RECURSIVE has(_)
+                    has(U) == CASE U.k = "opt" -> TRUE
+                                [] U.k \in {"var", "reg"} -> has(U.x)
+                                [] OTHER -> FALSE
+                IN has(T)
 VSort(v, T, axis, asc, arg) ==
   LET D == PureDepthE(T)
       negaxis == IF axis >= 0 THEN D - axis ELSE -axis IN
   IF HasRecOrUnion(T) THEN Unspec
   ELSE IF negaxis < 1 \/ negaxis > D THEN Err
   ELSE IF negaxis >= 2 /\ HasOptList(T) THEN Unspec     \* missing lists inside a non-innermost group: not modelled
+  ELSE IF negaxis >= 2 /\ arg = 1 /\ HasAnyOpt(T) THEN Unspec   \* position of a missing leaf in a column: unspecified
   ELSE Ok(VList(SortSeqAx(v.xs, T, negaxis, asc, arg)))
 
 =============================================================================
